@@ -147,7 +147,31 @@ func runFmtDelegate(c *core.Ctx) {
 		pos := et.Named.Obj().Pos()
 		if why, ok := fmtDelegateTabled[et.Name()]; ok {
 			tabledSeen[et.Name()] = true
-			c.Ob(et.Name(), pos, true, "tabled: "+why)
+			// the Formattable adapter: exactly one call FormatError(<its error field>, state, verb), for every verb and flag
+			fn := et.Methods["Format"]
+			okAd := false
+			if fn != nil && fn.Blocks != nil && len(fn.Params) == 3 {
+				var calls []*ssa.Call
+				extra := false
+				sx.EachInstr(fn, func(in ssa.Instruction) {
+					switch x := in.(type) {
+					case *ssa.Call:
+						calls = append(calls, x)
+					case *ssa.Store, *ssa.Go, *ssa.Defer, *ssa.Panic, *ssa.If:
+						extra = true
+					}
+				})
+				if len(calls) == 1 && !extra && isFormatError(sx.Callee(calls[0])) && len(calls[0].Call.Args) == 3 {
+					a := calls[0].Call.Args
+					if ld, isLd := a[0].(*ssa.UnOp); isLd {
+						if fa, isFA := ld.X.(*ssa.FieldAddr); isFA && fa.X == ssa.Value(fn.Params[0]) && a[1] == ssa.Value(fn.Params[1]) && a[2] == ssa.Value(fn.Params[2]) {
+							okAd = true
+						}
+					}
+				}
+			}
+			c.Check(okAd, et.Name(), pos, "tabled shape ("+why+"): Format = FormatError(<wrapped error>, s, verb) and nothing else",
+				"the Formattable adapter does not hand every verb and flag to FormatError (a shortcut calls the wrapped error's own Format or Error): %q, %x, width, precision and unknown verbs no longer print what fmt prints for the Error() string")
 			continue
 		}
 		fn := et.Methods["Format"]
